@@ -24,6 +24,9 @@ package main
 //	p.X = *x3                       field assignment from an alias
 //	return [boolean expression of Equal / IsZero / IsNonZero / & / named result]
 //
+// and, for Sub only, the fixed shape  var t T; t.Neg(rhs); p.Add(lhs, &t)  (rendered with the
+// translated Neg and Add).
+//
 // Pointer aliasing: the receiver may alias a struct argument (p.Add(p, q) is how the library
 // calls these), so reading S.F after the receiver's field F has been written is rejected.
 
@@ -803,7 +806,11 @@ func genFormulas(repo string) (string, map[string]string, error) {
 	var out strings.Builder
 	out.WriteString("(* GENERATED by /verif/translator (formulas.go) from the straight-line field programs of\n")
 	for _, k := range slpKinds {
-		fmt.Fprintf(&out, "     %s  (%s)\n", k.file, strings.Join(k.funcs, " "))
+		fns := strings.Join(k.funcs, " ")
+		if k.prefix == "W_" || k.prefix == "E_" {
+			fns += " Sub"
+		}
+		fmt.Fprintf(&out, "     %s  (%s)\n", k.file, fns)
 	}
 	out.WriteString("   — do not edit.  One `let` per source statement; names are <destination>_<write number>;\n" +
 		"   Select(c, z, nz) = if c then nz else z;  R.Inv(x) = (finv K x, x <> 0). *)\n")
